@@ -15,7 +15,7 @@ HASHSEEDS = ["0", "1", "2", "4242"]
 RULE = ("the same (input, options) is evaluated in 4 long-lived tool processes started with PYTHONHASHSEED 0, 1, 2 and 4242, each with "
         "its own working/temporary directory, while all 16 cores are busy with the other groups; inputs: dependency-dense blocks "
         "(many memory operations, diamond-shaped term DAGs, loads kept in the stack across an aliasing store that stores a value "
-        "built from them), contracts of generated blocks, shipped examples (thorough); compared "
+        "built from them, several unused hashes / loads between stores), contracts of generated blocks, shipped examples (thorough); compared "
         "field by field: specification JSON (identifiers included), sub-block list, greedy id list, the emitted .smt2 text of the "
         "Max-SMT problem, and for contracts the emitted file, log and statistics (minus timings); Max-SMT *results* are excluded "
         "(solvers are documented as non-deterministic); non-trivial = specification with >= 3 dependence pairs or >= 2 maximal "
@@ -153,7 +153,7 @@ def group_run(n, sd, shipped):
         @seed(sd)
         @settings(max_examples=n, database=None, deadline=None, phases=(Phase.generate,),
                   suppress_health_check=list(HealthCheck), report_multiple_bugs=False)
-        @given(st.one_of(gen.body(min_len=8, max_len=30, profile=DEP_PROFILE, allow_split=False), gen.body(min_len=8, max_len=30, profile=DEP_PROFILE), gen.body(max_len=16), gen.corpus_block(), gen.kept_loads_block(), gen.two_store_block()),
+        @given(st.one_of(gen.body(min_len=8, max_len=30, profile=DEP_PROFILE, allow_split=False), gen.body(min_len=8, max_len=30, profile=DEP_PROFILE), gen.body(max_len=16), gen.corpus_block(), gen.kept_loads_block(), gen.two_store_block(), gen.unused_hashes_block()),
                st.builds(lambda a, b, c: a + b + c + ["-greedy"], st.sampled_from(options.SPLIT), st.sampled_from(options.RULES), st.sampled_from(options.CRIT)),
                st.lists(gen.block(max_len=12, profile=gen.MEM_PROFILE), min_size=2, max_size=4), st.integers(0, 9))
         def prop(instrs, argv, blocks, k):
